@@ -154,3 +154,23 @@ _add("C17", "comparisons with index seconds have seconds on the other side (unit
 _add("C19", "gin: every path through the blocked branch aborts the context or hands over to the fallback.")
 _add("C20", "the outlier lookups answer from the enforced maps alone.")
 _add("C15", "every Lock / RLock acquisition in the module is released (or its release deferred) on every path to the function's end.")
+
+# ---- additions after the fifth round
+_add("C01", "api.entry never recycles the context of an entry it returns; the exit-handler list is per-entry storage; the pooled EntryOptions object is fully reset.")
+_add("C02", "the pooled EntryOptions object is fully reset (batch count of one call cannot leak into the next); the threshold is computed for each check.")
+_add("C03", "the response time stored in the context is the measured one (effect signature of stat.Slot); exit handlers are per-entry storage.")
+_add("C04", "the pass marker is stored before the pass callbacks run.")
+_add("C06", "a controller retained for an unchanged rule is never also a statistic donor.")
+_add("C07", "the amount recorded in a window bucket is the amount given by the caller (no clamping on the write path).")
+_add("C08", "value identity of the amount along the write path; the counter loop of the bucket reset is unconditional.")
+_add("C09", "the bucket reset clears all counters unconditionally.")
+_add("C10", "the threshold is computed for each check, not cached.")
+_add("C11", "the threshold handed to the checker is the calculator's result for this very check.")
+_add("C12", "the exit-handler list through which a breaker registers its probe rollback is storage of that entry alone.")
+_add("C14", "the rule bound to a controller / breaker is the loaded rule object itself.")
+_add("C15", "the enforced map of a module is never the same object as its cached input map.")
+_add("C16", "the block error copy handed to the caller reads every field of the source on every path.")
+_add("C17", "the multi-file scan stops only on list exhausted / caller's limit / reader error / shouldContinue.")
+_add("C18", "loaded rule objects are never written after loading (rules.immutable).")
+_add("C19", "api.entry hands out only entries whose context it has not recycled.")
+_add("C20", "a resource's recycler is created once.")
